@@ -30,7 +30,7 @@ def run(ctx, prop="C08"):
     race = prop == "C13"
     if not ctx.replay:
         # E binding: TLC-enumerated matcher schedules with gate-forced cancellation points
-        matcher_sched.run_part(ctx, sample=ctx.pick(300, None) if prop == "C08" else ctx.pick(500, None))
+        matcher_sched.run_part(ctx, sample=ctx.pick(300, None) if prop == "C08" else ctx.pick(500, None), race=race)
     fzf = ctx.build_fzf(race=race)
     fzf_oracle = ctx.build_fzf() if race else fzf
     rng = ctx.rng
@@ -45,8 +45,8 @@ def run(ctx, prop="C08"):
         relines = [pipeline.make_lines(rng, rng.choice([0, 5, 120, 900])) for _ in range(nrel)]
         rescheds = [pipeline.make_schedule(rng, rl, slow) for rl in relines]
         steps = pipeline.make_steps(rng, rng.randint(6, 30), rng.choice([0.3, 1, 2]), reloads=nrel, excludes=rng.random() < 0.5)
-        if not race and sid % 3 == 1:       # directed scenarios: result-cache key collisions / exclude-reload-same-query
-            kind = "cachekeys" if sid % 2 == 1 else "exclude-reload"
+        if sid % 3 == 1:       # directed scenarios: result-cache key collisions / exclude-reload-same-query
+            kind = "cachekeys" if (sid % 2 == 1 or race) else "exclude-reload"
             n = rng.choice([150, 330, 1200])
             lines = pipeline.make_lines(rng, n, sparse=True)
             sched = pipeline.make_schedule(rng, lines, 0.2)
